@@ -15,11 +15,11 @@ from ..ref import c06c07_specs as S
 PROPERTY = 'C06'
 TIMEOUT = 30.0
 CHUNK = 8
-FLOOR = 0.35
+FLOOR = 0.43
 RULE = ('every DetSpec of the grammar atom x position x composition x shape/summed form x front end x objective '
         'direction x vtype x interface; a case is conclusive when the solve reports optimal and all user '
         'constraints and the objective were re-evaluated by closed forms at x.get(); it is non-trivial when, in '
-        'addition, the atom constraint under test is active (slack <= 1e-3 relative) or the atom is the objective; '
+        'addition, the atom constraint under test is active (slack <= 1e-3 relative, or the implicit domain boundary of its cone is reached) or the atom is the objective; '
         'distinct = distinct (spec, interface)')
 ASSUMPTIONS = [
     'closed forms in rsmc/ref/c06c07_atoms.py are the meaning of the atoms (power = |x|^(p/q), entropy = -sum x log x, '
@@ -39,6 +39,7 @@ CTOL = {'eco': 1e-5, 'grb': 1e-4, 'def': 1e-6, 'ort': 1e-6}
 OTOL = {'eco': 2e-5, 'grb': 1e-4, 'def': 1e-6, 'ort': 1e-6}
 
 
+ITOL = {'eco': 2e-4, 'grb': 2e-5, 'def': 1e-5, 'ort': 1e-5}     # integrality: ECOS_BB integer_tol is 1e-4, Gurobi IntFeasTol 1e-5
 XTOL = {'eco': 1e-6, 'grb': 1e-5, 'def': 1e-7, 'ort': 1e-7}
 
 
@@ -54,8 +55,6 @@ def gen_cases(tier, seed):
     thorough = tier == 'thorough'
     for tag, ktag, spec in S.c06_specs(tier, seed):
         for solver in S.solvers_for(spec, thorough):
-            if solver == 'grb' and thorough and spec['pal'] not in (0, 2):
-                continue        # Gurobi on half of the palettes in the deep tier (budget)
             yield {'tag': tag, 'k': ktag, 'solver': solver, 'spec': spec}
 
 
@@ -66,7 +65,7 @@ def exhaustive(tier):
 def bounds(tier):
     th = tier == 'thorough'
     return {'n_vars': [2, 3] if th else [2], 'palettes': 4 if th else 1, 'multipliers': [1, 2.5, 0.5, -1, -2.5, -0.5],
-            'directions': 4, 'vec_len': [2, 3] if th else [2], 'front_ends': ['ro', 'dro'],
+            'directions': '4 fixed + 1 adversarial (along the affine right-hand side)', 'vec_len': [2, 3], 'front_ends': ['ro', 'dro'],
             'interfaces': ['eco', 'grb(LP/SOC)', 'def(LP)'] + (['ort(LP)'] if th else []),
             'vtypes': ['C', 'I', 'BC']}
 
@@ -156,7 +155,7 @@ def run_case(case):
         return {'status': 'violation', 'ops': nops, 'sig': '%s|box-violated' % base_sig,
                 'detail': 'x=%s leaves the user box %s by %.3g (%s, %s)' % (v[0].tolist(), spec['box'], br, solver, case['k'])}
     ir = S.integrality_resid(spec, v)[0]
-    if ir > 1e-5:
+    if ir > ITOL[solver]:
         return {'status': 'violation', 'ops': nops, 'sig': '%s|vtype-violated(%s)' % (base_sig, spec['vt']),
                 'detail': 'x=%s vtype %s residual %.3g (%s)' % (v[0].tolist(), spec['vt'], ir, solver)}
     active = False
@@ -181,6 +180,12 @@ def run_case(case):
         mres = max(mres, res / (1.0 + sc))
         if c.get('tag') == 'main' and res >= -1e-3 * (1.0 + sc):
             active = True
+        elif c.get('tag') == 'main' and c['kind'] == 'term' and c['t'].get('atom') and \
+                S.ATOMS[c['t']['atom']]['dom'] is not None:
+            # the implicit domain (argument >= 0) of the atom's cone is binding
+            U = S.aff_eval(c['t']['u'], v)
+            if float(U.min()) <= 1e-3 * (1.0 + float(np.abs(U).max())):
+                active = True
     # ---- the objective ---------------------------------------------------------------------
     ov, dv = S.obj_eval(spec, v)
     ov = float(ov[0])
